@@ -4,7 +4,8 @@ the unit cube at every lattice rotation and several translations, that the press
 (two different formulas), that pressure and tension forces have zero resultant and zero torque, and rigid covariance.  Real
 apply_pressure_on_surface / apply_surface_tension_and_membrane_elasticity on lattice meshes (seeds, cube, boxes) are compared exactly, node by
 node, by TLC (ForceTrace).  For every force term (also bending and angle regularisation, which involve acos / cot) and all together, on
-generic jittered ellipsoids with random parameters: zero resultant, zero torque, covariance under a random rigid motion, and agreement of
+generic jittered ellipsoids with random parameters, freshly built and with a history (unused slots inside the node / face lists, nodes
+moved since): zero resultant, zero torque, covariance under a random rigid motion, and agreement of
 pressure and tension / elasticity forces with finite differences of volume and effective-tension-weighted area -- evaluated by the driver
 with independent formulas and required by TLC."""
 import itertools, json, os, random, shutil
@@ -33,6 +34,11 @@ def cases(tier, seed):
         out.append({"kind": "generic", "level": rnd.choice([1, 2]), "jitter": rnd.choice([0.0, 0.03, 0.06]), "scale": sc, "pos": [rnd.uniform(-10, 10) * sc for _ in range(3)], "seed": seed + n,
                     "params": {"g0": 3e-4 if on() else 0.0, "ka": rnd.choice([0.0, 1e-15, 3e-13]), "kang": rnd.choice([0.0, 1e-16, 1e-14]), "K": rnd.choice([0.0, 2500.0, 1e4]),
                                "kb": rnd.choice([0.0, 2e-18, 5e-17]), "tv": rnd.choice([0.8, 1.0, 1.3])}})
+    # the same on cells with a history: unused slots inside the node / face lists, nodes moved since the lists were built
+    for c in [x for x in out if x["kind"] == "generic"][:: 2 if tier == "quick" else 1]:
+        d = json.loads(json.dumps(c))
+        d["frag"], d["fragn"] = rnd.choice([1, 2, 4, 7]), rnd.random() < 0.5
+        out.append(d)
     for i, c in enumerate(out):
         c["k"] = i + 1
     return out
